@@ -189,8 +189,12 @@ func (r *Runner) builtin(ctx context.Context, pos syntax.Pos, name string, args 
 		}
 		exit.exiting = true
 	case "set":
+		hadErrExit := r.opts[optErrExit]
 		if err := Params(args...)(r); err != nil {
 			return failf(2, "set: %v\n", err)
+		}
+		if !hadErrExit && r.opts[optErrExit] && r.inNegated {
+			r.errExitSetInNegated = true
 		}
 		r.updateExpandOpts()
 	case "shift":
